@@ -913,8 +913,8 @@ impl<R: Read> RdbReader<R> {
                         let mut entry_idx = 0;
                         
                         while entry_idx < remaining_count {
-                            if entry_idx + 2 >= remaining_count {
-                                break; // Not enough data for a complete entry
+                            if entry_idx + 2 > remaining_count {
+                                break; // Not enough data for a complete entry (ID + field count)
                             }
                             
                             // Read entry ID
